@@ -141,6 +141,9 @@ func engRemote(variants []remParams) vsched.Instance {
 							snd = actor.NewPID(tgt.Address, tgt.ID)
 						}
 					}
+					if p.WithSender && p.SameID {
+						snd = actor.NewPID([]string{"10.0.0.9:4000", remAddrA}[i%2], "worker/1")
+					}
 					vsched.Touch("sends")
 					sends = append(sends, remSend{id: id, target: tname, sender: pidStr(snd)})
 					if snd == nil {
@@ -370,12 +373,12 @@ func down(p remParams) bool { return p.Down() }
 
 func init() {
 	up, dn, upT := rparams.Up, rparams.Dn, rparams.UpLarge
-	Register(&Job{Name: "C17/remote/peer-up", Prop: "C17", Bound: 1, BoundT: 2, Budget: 60, BudgetT: 900, Shards: 11, DumpOutcomes: true,
+	Register(&Job{Name: "C17/remote/peer-up", Prop: "C17", Bound: 1, BoundT: 2, Budget: 60, BudgetT: 900, Shards: 12, DumpOutcomes: true,
 		Desc: "two real engines with real Remote/router/writer/reader over the in-memory transport: 1-2 sender threads x 1-3 messages to 1-2 actors on the peer (with/without sender PID), an actor sender, a request/response pair, 0-2 failing dial attempts inside the writer's retry loop: exactly-once, right target and sender, per-sender order, reply reaches the requester, no unreachable event",
 		Make: func() vsched.Instance { return engRemote(up) }})
 	Register(&Job{Name: "C17/remote/peer-down", Prop: "C17", Bound: 1, BoundT: 2, Budget: 35, BudgetT: 900, Shards: 4, DumpOutcomes: true,
 		Desc: "the peer refuses all 3 dial attempts of the first (and second) connection attempt: RemoteUnreachableEvent once per failed attempt, every message handed to that attempt dead-lettered exactly once (conservation: delivered xor dead-lettered), a send after the episode settled triggers a fresh dial and arrives once the peer is up",
 		Make: func() vsched.Instance { return engRemote(dn) }})
-	Register(&Job{Name: "C17/remote/peer-up-large", Prop: "C17", Tier: "thorough", Bound: 1, BoundT: 2, Budget: 50, BudgetT: 900, Shards: 17, DumpOutcomes: true,
+	Register(&Job{Name: "C17/remote/peer-up-large", Prop: "C17", Tier: "thorough", Bound: 1, BoundT: 2, Budget: 50, BudgetT: 900, Shards: 18, DumpOutcomes: true,
 		Desc: "as peer-up with 3 senders / 3 messages per sender / request + actor sender", Make: func() vsched.Instance { return engRemote(upT) }})
 }
